@@ -335,10 +335,10 @@ def main(ck):
     m1 = c.routes(lambda: lib.parse_xml(gm.xml), dict(xml=gm.xml), labels)
     if m1 is not None and seed % 2 == 0:
       c.recompile(lambda: lib.parse_xml(gm.xml), seed, dict(xml=gm.xml), labels)
-  ck.run_hypothesis(xml_test, st.tuples(gen_io.rich_models(max_bodies=4, memory='4M', min_meshes=0, min_textures=0),
+  ck.run_hypothesis(xml_test, st.tuples(gen_io.rich_models(max_bodies=4, memory='4M', min_meshes=0, min_textures=0, muscles=True),
                                         mg.state_seed()), ck.budget(40, 2500), name='xml')
   ck.run_hypothesis(xml_test, st.tuples(gen_io.rich_models(max_bodies=3, memory='4M', min_meshes=6, min_textures=4,
-                                                           frames=False, replicate=False), mg.state_seed()),
+                                                           frames=False, replicate=False, muscles=True), mg.state_seed()),
                     ck.budget(20, 1500), name='xml-many-assets')
 
   def api_test(case):
